@@ -36,13 +36,13 @@ RULE = (
     "FRESH cost instances (pooled surroundings: a fresh cost fitted on concat(X[s:a],X[b:e])); "
     "(ii) CUSUM^2 == ChangeScore(L2Cost), L2Saving == Saving(L2Cost(0)) and both inside the model "
     "interval computed from the slices; (iii) change scores, savings >= 0, optimal <= fixed, "
-    "split inequality, within the model's rounding width, only where all variances are well "
-    "above the 1e-16 floor; (iv) to_* pass-throughs. Non-trivial = case with an interior cut "
+    "split inequality, within the model's rounding width, only where all variances are above "
+    "1e-14 (data in tiny units of measurement included); (iv) to_* pass-throughs. Non-trivial = case with an interior cut "
     "and (p>1 or non-zero baseline or user cost); distinct by recipe digest."
 )
 ASSUMPTIONS = [
     "identity tolerance: 64*eps*sum|terms| (same arithmetic on both sides)",
-    "inequalities only asserted where every involved segment variance interval stays above 1e-8",
+    "inequalities only asserted where every involved segment variance stays above 1e-14 (two orders above the floor)",
 ]
 
 USER_COSTS = ["L1Cost", "ModeCost", "ClosureTableCost"]
@@ -82,6 +82,13 @@ def make_recipe(rng, tier):
     if kind == "GaussianCovCost" and dk in ("constant", "piecewise_const", "small_alphabet"):
         dk = "noise"
     X, _ = gen_data(rng, n, p, dk)
+    if kind in ("GaussianVarCost", "GaussianCovCost") and rng.random() < 0.3 and dk not in (
+            "constant", "piecewise_const", "small_alphabet", "dyadic", "offset", "scaled_big"):
+        # tiny unit of measurement: variances around 1e-10 .. 1e-14, still far above the 1e-16 floor
+        X = X * float(rng.choice([1e-5, 1e-6, 1e-7]))
+        if cost["kw"].get("param") is not None:
+            cost = S(kind, param={"tuple": [0.0, 1e-12]})
+        dk = dk + "*tiny"
     return {"adapter": adapter, "cost": cost, "kind": kind, "user": bool(user), "data_kind": dk,
             "X": X, "sub_seed": int(rng.integers(2 ** 31))}
 
@@ -223,11 +230,11 @@ def _wellcond(kind, X, tol, parts):
     for s, e in parts:
         seg = X[s:e]
         if kind == "GaussianVarCost":
-            if seg.var(axis=0).min() <= 1e-8:
+            if seg.var(axis=0).min() <= 1e-14:
                 return False
         else:
             lam = np.linalg.eigvalsh(np.cov(seg, rowvar=False, ddof=0).reshape(seg.shape[1], -1))
-            if lam.min() <= 1e-8:
+            if lam.min() <= 1e-14:
                 return False
     return True
 
